@@ -50,7 +50,7 @@ def main():
                      "kind_free_text": "Lean 4 model + theorems (kernel-checked), model constants regenerated from /repo by harness/translate.py on every run, differential correspondence of the model driver against the real code, failing-input search with independent oracles"}],
         "checks": checks,
         "not_applicable": na,
-        "notes": "See DESIGN.md (section 5: per-property design as built; 6: findings; 7: trusted base; 10: seeded breaking changes and what each check reports; 11: independent review). 20 genuine defects (F1-F16, F18-F21) were repaired by `fix:` commits in /repo and are listed as fixed in known_findings.json (fixed entries suppress nothing; their inputs are the regression corpus harness/corpus/); one known finding: C14 batch-too-large (F17). No hooks in /repo: instrumentation is done by rebinding module globals from the harness process (harness/vsim.py, harness/sched.py). Every function a hand-written model transcribes is pinned to its validated text (harness/translate_pins.py, Props/PinsCxx.lean). Cross-property composition theorems: lean/NxsModel/Props/E2E.lean (audited by harness/audit_all.py). Translator self-tests: harness/test_translate*.py.",
+        "notes": "See DESIGN.md (section 5: per-property design as built; 6: findings; 7: trusted base; 10: seeded breaking changes and what each check reports; 11: independent review). 20 genuine defects (F1-F16, F18-F21) were repaired by `fix:` commits in /repo and are listed as fixed in known_findings.json (fixed entries suppress nothing; their inputs are the regression corpus harness/corpus/); two known findings: C14 batch-too-large (F17) and C15 fixed-point-53-bits (a 32.32 fixed-point value with more than 53 significant bits, expressible only as a Fraction, does not round-trip). No hooks in /repo: instrumentation is done by rebinding module globals from the harness process (harness/vsim.py, harness/sched.py). Every function a hand-written model transcribes is pinned to its validated text (harness/translate_pins.py, Props/PinsCxx.lean). Cross-property composition theorems: lean/NxsModel/Props/E2E.lean (audited by harness/audit_all.py). Translator self-tests: harness/test_translate*.py.",
     }
     with open(os.path.join(ROOT, "MANIFEST.json"), "w") as f:
         json.dump(man, f, indent=1)
